@@ -19,12 +19,23 @@ package midicat
 //@ ensures [H] old(rd.spos) <= rd.spos && rd.spos <= rd.sn
 
 // decimal / hexadecimal field conversion (fmt.Sscanf): assumed, not proved
+// a time stamp field is an optional minus sign followed by at least one digit, nothing else
+//@ macro decField(b) = len(b) >= 1 && (b[0] == 0x2D ==> len(b) >= 2) && forall i int :: ((b[0] == 0x2D ? 1 : 0) <= i && i < len(b)) ==> isDig(b[i])
 //@ func convertDelta
 //@ ensures err != nil ==> deltams == -1
-//@ ensures [P:C19] forall v int32 :: decCanon(seq(b), v) ==> (err == nil && deltams == v)
+//@ ensures [P:C19] err == nil ==> decField(b)
+// (what %d prints is such a field; stated as a separate hypothesis so that the abstract predicate need not be unfolded)
+//@ ensures [P:C19] forall v int32 :: (decCanon(seq(b), v) && decField(b)) ==> (err == nil && deltams == v)
+//@ loop 0 invariant -1 <= rangeindex && rangeindex < len(digits) && len(b) >= 1 && (b[0] == 0x2D ==> (len(b) >= 2 && len(digits) == len(b) - 1)) && (b[0] != 0x2D ==> len(digits) == len(b))
+//@ loop 0 invariant forall i int :: 0 <= i && i < len(digits) ==> digits[i] == b[i + (b[0] == 0x2D ? 1 : 0)]
+//@ loop 0 invariant forall i int :: 0 <= i && i <= rangeindex ==> isDig(digits[i])
+//@ loop 0 decreases len(digits) - rangeindex
 
 //@ func convert
 //@ ensures err != nil ==> out == nil
+// whatever Sscanf makes of the field: a record is only delivered when every character of it was a hex digit of a pair
+//@ ensures [P:C19] err == nil ==> len(out) * 2 == len(b)
+//@ ensures [P:C19] len(b) == 0 ==> err != nil
 //@ ensures [P:C19] hexCanon(seq(b)) ==> (err == nil && len(out) == len(b) / 2)
 // a field with an odd number of hex digits is malformed: an error, not a record that drops the last digit
 //@ ensures [P:C19] hexOdd(seq(b)) ==> err != nil
@@ -38,6 +49,8 @@ package midicat
 //@ ensures [P:C19] err == nil ==> (rd.spos > old(rd.spos) && rd.sdata[rd.spos - 1] == 0x0A && forall i int :: old(rd.spos) <= i && i < rd.spos - 1 ==> rd.sdata[i] != 0x0A)
 //@ ensures [P:C19] err == nil ==> forall s int :: (old(rd.spos) <= s && s < rd.spos - 1 && rd.sdata[s] == 0x20 && (forall i int :: (old(rd.spos) <= i && i < rd.spos - 1 && i != s) ==> rd.sdata[i] != 0x20)) ==> (len(out) == rd.spos - 2 - s && forall k int :: 0 <= k && k < len(out) ==> out[k] == rd.sdata[s + 1 + k])
 //@ ensures [P:C19] err == nil && (forall i int :: old(rd.spos) <= i && i < rd.spos - 1 ==> rd.sdata[i] != 0x20) ==> len(out) == 0
+// a line with a second separator is malformed: no record
+//@ ensures [P:C19] err == nil ==> forall i int, j int :: (old(rd.spos) <= i && i < j && j < rd.spos - 1 && rd.sdata[i] == 0x20) ==> rd.sdata[j] != 0x20
 // a line is only given up for one of two reasons: the source ended or failed, or the time-stamp field (the bytes
 // up to the separator just read) could not be converted
 //@ ensures [P:C19] err != nil && rd.sfault == nil ==> (rd.spos == rd.sn || (rd.spos > old(rd.spos) && rd.sdata[rd.spos - 1] == 0x20))
@@ -47,6 +60,7 @@ package midicat
 //@ loop 0 invariant !deltaRead ==> (len(out) == 0 && len(deltaBf) == rd.spos - old(rd.spos) && forall i int :: old(rd.spos) <= i && i < rd.spos ==> rd.sdata[i] != 0x20)
 //@ loop 0 invariant deltaRead ==> (old(rd.spos) + len(deltaBf) < rd.spos && rd.sdata[old(rd.spos) + len(deltaBf)] == 0x20 && forall i int :: old(rd.spos) <= i && i < old(rd.spos) + len(deltaBf) ==> rd.sdata[i] != 0x20)
 //@ loop 0 invariant (deltaRead && (forall i int :: (old(rd.spos) + len(deltaBf) < i && i < rd.spos) ==> rd.sdata[i] != 0x20)) ==> (len(out) == rd.spos - old(rd.spos) - len(deltaBf) - 1 && forall k int :: 0 <= k && k < len(out) ==> out[k] == rd.sdata[old(rd.spos) + len(deltaBf) + 1 + k])
+//@ loop 0 invariant deltaRead ==> forall i int :: (old(rd.spos) + len(deltaBf) < i && i < rd.spos) ==> rd.sdata[i] != 0x20
 //@ loop 0 invariant len(out) == 0 || fresh(out)
 //@ loop 0 invariant len(deltaBf) == 0 || fresh(deltaBf)
 //@ loop 0 decreases rd.sn - rd.spos
@@ -59,4 +73,8 @@ package midicat
 // the message: for a line with exactly one space whose second field is what %X prints (upper-case hex pairs), the
 // bytes those pairs denote, in order
 //@ ensures [P:C19] err == nil ==> forall s int :: (old(rd.spos) <= s && s < rd.spos - 1 && rd.sdata[s] == 0x20 && (forall i int :: (old(rd.spos) <= i && i < rd.spos - 1 && i != s) ==> rd.sdata[i] != 0x20) && rd.spos - 2 - s >= 2 && (rd.spos - 2 - s) % 2 == 0 && (forall i int :: (s < i && i < rd.spos - 1) ==> isHexU(rd.sdata[i]))) ==> (len(out) == (rd.spos - 2 - s) / 2 && forall k int :: (0 <= k && k < (rd.spos - 2 - s) / 2) ==> out[k] == hexv(rd.sdata[s + 1 + 2 * k]) * 16 + hexv(rd.sdata[s + 2 + 2 * k]))
+// a record is only delivered for a line with exactly one separator, and its message has half as many bytes as the
+// message field has characters
+//@ ensures [P:C19] err == nil ==> !(forall i int :: (old(rd.spos) <= i && i < rd.spos - 1) ==> rd.sdata[i] != 0x20)
+//@ ensures [P:C19] err == nil ==> forall s int :: (old(rd.spos) <= s && s < rd.spos - 1 && rd.sdata[s] == 0x20) ==> len(out) * 2 == rd.spos - 2 - s
 //@ ensures [H] old(rd.spos) <= rd.spos && rd.spos <= rd.sn
